@@ -42,7 +42,7 @@ func runC06(p *core.Program, r *core.Report) {
 	r.NotDecided = []string{"linearisation of concurrent sends, at-most-once delivery, loss accounting", "behaviour at every fault point (peer closes before/between/in the middle of frames)"}
 	r.Rule("C06.guard", "conn/wr are used only with the send mutex held (or before the client is published)", 8)
 	r.Rule("C06.single-writer", "only send() writes to the buffered writer (whole frame in one loop); only Flush() flushes", 2)
-	r.Rule("C06.close-on-error", "after a failed send the caller closes the connection; Close forgets it; send reconnects; Connect replaces conn and writer together", 6)
+	r.Rule("C06.close-on-error", "after a failed send the caller closes the connection; Close forgets it; send reconnects; Connect replaces conn and writer together", 4)
 	r.Rule("C06.error-visible", "deferred recover in a function with a named error result assigns the error", 1)
 	r.Rule("C06.fifo", "queue mode: tail enqueue, head dequeue, one drain goroutine", 3)
 	r.Rule("C06.license", "each frame hashes the license in effect for that send: options applied to a fresh struct per send; per-send license if non-empty, else the client's", 4)
@@ -193,10 +193,100 @@ func c06SingleWriter(p *core.Program, r *core.Report, t *types.Named) {
 	// send writes the whole buffer: loop `for pos < len(sendbuf)` advancing by the count written
 	if fi := p.Method("net/oneway", "OneWayTcpClient", "send"); fi != nil {
 		ok := false
+		info := fi.Pkg.TypesInfo
+		objOf := func(e ast.Expr) types.Object {
+			if id, isId := ast.Unparen(e).(*ast.Ident); isId {
+				return info.ObjectOf(id)
+			}
+			return nil
+		}
+		isLenOf := func(e ast.Expr, o types.Object) bool {
+			call, isC := ast.Unparen(e).(*ast.CallExpr)
+			if !isC || len(call.Args) != 1 {
+				return false
+			}
+			id, isId := call.Fun.(*ast.Ident)
+			return isId && id.Name == "len" && o != nil && objOf(call.Args[0]) == o
+		}
+		isZero := func(e ast.Expr) bool { v, isK := constIntOf(info, e); return isK && v == 0 }
 		ast.Inspect(fi.Decl.Body, func(n ast.Node) bool {
-			if loop, isL := n.(*ast.ForStmt); isL && loop.Cond != nil && stripSpaces(types.ExprString(loop.Cond)) == "pos<len(sendbuf)" {
-				body := stripSpaces(nodeStringFull(loop.Body))
-				if strings.Contains(body, "wr.Write(sendbuf[pos:])") && strings.Contains(body, "pos=nbytethistime") {
+			loop, isL := n.(*ast.ForStmt)
+			if !isL || loop.Cond == nil {
+				return true
+			}
+			cond, isB := ast.Unparen(loop.Cond).(*ast.BinaryExpr)
+			if !isB {
+				return true
+			}
+			// the write inside: n, err := wr.Write(ARG)
+			var arg ast.Expr
+			var nobj types.Object
+			ast.Inspect(loop.Body, func(m ast.Node) bool {
+				as, isA := m.(*ast.AssignStmt)
+				if !isA || len(as.Lhs) != 2 || len(as.Rhs) != 1 {
+					return true
+				}
+				call, isC := ast.Unparen(as.Rhs[0]).(*ast.CallExpr)
+				if !isC || len(call.Args) != 1 {
+					return true
+				}
+				if sel, isS := call.Fun.(*ast.SelectorExpr); isS && sel.Sel.Name == "Write" && strings.HasSuffix(stripSpaces(types.ExprString(sel.X)), ".wr") {
+					arg, nobj = call.Args[0], objOf(as.Lhs[0])
+				}
+				return true
+			})
+			if arg == nil || nobj == nil {
+				return true
+			}
+			advancedBy := func(target types.Object, sliceForm bool) bool {
+				found := false
+				ast.Inspect(loop.Body, func(m ast.Node) bool {
+					as, isA := m.(*ast.AssignStmt)
+					if !isA || len(as.Lhs) != 1 || len(as.Rhs) != 1 || objOf(as.Lhs[0]) != target {
+						return true
+					}
+					if sliceForm {
+						// rest = rest[n:]
+						if se, isS := ast.Unparen(as.Rhs[0]).(*ast.SliceExpr); isS && se.High == nil && objOf(se.X) == target && objOf(se.Low) == nobj {
+							found = true
+						}
+						return true
+					}
+					switch as.Tok {
+					case token.ADD_ASSIGN:
+						if objOf(as.Rhs[0]) == nobj {
+							found = true
+						}
+					case token.ASSIGN:
+						if be, isB := ast.Unparen(as.Rhs[0]).(*ast.BinaryExpr); isB && be.Op == token.ADD {
+							if (objOf(be.X) == target && objOf(be.Y) == nobj) || (objOf(be.Y) == target && objOf(be.X) == nobj) {
+								found = true
+							}
+						}
+					}
+					return true
+				})
+				return found
+			}
+			switch a := ast.Unparen(arg).(type) {
+			case *ast.SliceExpr:
+				// for pos < len(buf) { n, err := wr.Write(buf[pos:]); pos += n }
+				if a.High != nil || a.Low == nil {
+					return true
+				}
+				buf, pos := objOf(a.X), objOf(a.Low)
+				if buf == nil || pos == nil {
+					return true
+				}
+				condOK := (cond.Op == token.LSS && objOf(cond.X) == pos && isLenOf(cond.Y, buf)) || (cond.Op == token.GTR && objOf(cond.Y) == pos && isLenOf(cond.X, buf))
+				if condOK && advancedBy(pos, false) {
+					ok = true
+				}
+			case *ast.Ident:
+				// for len(rest) > 0 { n, err := wr.Write(rest); rest = rest[n:] }
+				rest := objOf(a)
+				condOK := ((cond.Op == token.GTR || cond.Op == token.NEQ) && isLenOf(cond.X, rest) && isZero(cond.Y)) || (cond.Op == token.LSS && isZero(cond.X) && isLenOf(cond.Y, rest))
+				if condOK && advancedBy(rest, true) {
 					ok = true
 				}
 			}
